@@ -735,7 +735,7 @@ def device_histories(ctx, drv, vv, rng, valid):
     if len(pool) < 3:
         ctx.notes.append('device histories: fewer than three usable images')
         return
-    n_pairs = 30 if quick else 400
+    n_pairs = 30 if quick else 250
     for _ in range(n_pairs):
         a = rng.choice(pool)
         for _try in range(20):
